@@ -454,7 +454,7 @@ class ExcEngine:
             elif f.id == "chr" and node.args and not self._bounded_chr(node.args[0], fi):
                 emit("ValueError", "chr() of an unconstrained integer", node, guards)
         if isinstance(f, ast.Attribute):
-            if f.attr in ("decode", "encode") and not isinstance(f.value, ast.Constant):
+            if f.attr in ("decode", "encode") and not isinstance(f.value, ast.Constant) and not self._foldable(f.value, fi):
                 errs = None
                 codec = None
                 if node.args:
@@ -513,6 +513,20 @@ class ExcEngine:
                 shift = 1  # bound call: callee param 0 is self
             ccls = scls if (t.cls is not None and scls is not None and t.cls in p.mro(scls)) else t.cls
             propagate(t, node, guards, ccls=ccls, self_shift=shift)
+
+    def _foldable(self, e, fi) -> bool:
+        """Is *e* a compile-time constant (literal / f-string over module constants)?"""
+        from ..consteval import Folder, Unfoldable
+
+        if any(isinstance(n, ast.Name) and self.p._is_local(fi, n.id) for n in ast.walk(e)):
+            return False
+        try:
+            Folder(self.p, fi.module).ev(e, {})
+            return True
+        except Unfoldable:
+            return False
+        except Exception:  # noqa: BLE001
+            return False
 
     def _bounded_chr(self, a, fi) -> bool:
         if isinstance(a, ast.Constant):
